@@ -10,8 +10,8 @@ from .common import all_demes
 from .c06 import hist_digest
 
 PROP = "C18"
-N_QUICK = 3000
-N_THOROUGH = 60000
+N_QUICK = 8000
+N_THOROUGH = 200000
 RULE = ("Plans: hibernation on in 70% (off in 30%), 2-3 level trees, all sprout mechanisms and limits, LSCs that stop "
         "leaves while parents sleep (incl. injected verdicts), metaepoch- and evaluation-based GSCs, small level limits.")
 NONTRIVIAL_RULE = "hibernation on and >= 1 sprouting round judged with >= 1 deme hibernating afterwards, or hibernation off and >= 1 round judged"
@@ -80,6 +80,16 @@ class C18Monitor(Monitor):
         if self.E is None or self.S is None:
             return
         w.probe("c18-rounds-judged")
+        # "took a sprout from it" = a child was actually created from it in this round
+        intended = self.S
+        actual = set()
+        for d in all_demes(tree):
+            for c in d._children:
+                if id(c) not in self.before_ids:
+                    actual.add(id(d))
+        if actual != intended:
+            w.probe("c18-returned-seeds-not-all-sprouted")
+        self.S = actual
         nonleaf = {id(d) for lv in tree.levels[:-1] for d in lv}
         if not self.on:
             w.probe("c18-hibernation-off-judged")
@@ -115,7 +125,7 @@ class C18Monitor(Monitor):
         for d in all_demes(tree):
             if d._hibernating and d._active:
                 old = self.sleeping.get(id(d))
-                new_sleep[id(d)] = old or {"obj": d, "digest": hist_digest(d),
+                new_sleep[id(d)] = old or {"obj": d, "digest": hist_digest(d), "n_evals": d.n_evaluations,
                                            "n_req": self.req_count.get(w.deme_ord(d), 0)}
         self.sleeping = new_sleep
         for k, s in self.sleeping.items():
@@ -138,6 +148,10 @@ class C18Monitor(Monitor):
             if self.req_count.get(w.deme_ord(d), 0) != s["n_req"]:
                 self.violate("hibernating-deme-evaluated", {"deme": d.id, "where": where})
                 s["n_req"] = self.req_count.get(w.deme_ord(d), 0)
+            if d.n_evaluations != s["n_evals"]:
+                self.violate("hibernating-deme-evaluation-counter-grew", {"deme": d.id, "where": where,
+                                                                         "before": s["n_evals"], "now": d.n_evaluations})
+                s["n_evals"] = d.n_evaluations
             if hist_digest(d) != s["digest"]:
                 self.violate("hibernating-deme-history-changed", {"deme": d.id, "where": where})
                 s["digest"] = hist_digest(d)
@@ -146,9 +160,21 @@ class C18Monitor(Monitor):
     def on_consult(self, tree, site, deme, raw, verdict):
         self.gsc_in_step.append(verdict)
 
+    @staticmethod
+    def _levels_digest(tree):
+        from ..sim import deme_digest_parts
+
+        h = hashlib.sha256()
+        for lv in tree.levels:
+            h.update(b"|")
+            for d in lv:
+                h.update(repr(deme_digest_parts(d)).encode())
+        return h.digest()
+
     def on_step_begin(self, tree):
         self.gsc_in_step = []
-        self.step_state = {"n_req": len(self.w.requests), "digest": tree_digest(tree), "rng": rng_state_digest()}
+        self.step_state = {"n_req": len(self.w.requests), "digest": self._levels_digest(tree), "rng": rng_state_digest(),
+                           "active": [d for d in all_demes(tree) if d._active]}
 
     def on_metaepoch_end(self, tree):
         self._check_sleepers("metaepoch-end")
@@ -162,8 +188,9 @@ class C18Monitor(Monitor):
         w.probe("c18-steps-progress-judged")
         no_req = len(w.requests) == st["n_req"]
         gsc_false = not any(self.gsc_in_step)
-        active = [d for d in all_demes(tree) if d._active]
-        if no_req and gsc_false and active:
+        # demes that were active when the step began and still are (a deme created by this step's round could not run yet)
+        active = [d for d in st["active"] if d._active]
+        if no_req and gsc_false and active and self._levels_digest(tree) == st["digest"]:
             # digest without the metaepoch counter
             same_rng = rng_state_digest() == st["rng"]
             allhib = all(d._hibernating for d in active)
